@@ -1,5 +1,374 @@
 /-
-C12 — property theorems (stub: not built yet).
+C12 — Results are independent of call history.
+
+Property theorems about the models of the four reuse mechanisms of regexp2:
+  * the replacement cache            (`Model/LRU.lean`         ← regexp.go `replacerDataCache`, `getReplacerData`)
+  * the size-classed buffer pools    (`Model/Pool.lean`        ← bufferpool.go, `decodeString*` in runner.go)
+  * the pooled interpreter state and its recycled result object
+                                     (`Model/RunnerReuse.lean` ← runner.go `scan`/`initMatch`/`putRunner`, match.go)
+and obligations over facts regenerated from the Go source on every run (`Generated/Fields.lean`): field
+inventories, reset write lists, pool size classes.  The models are tied to the code by those facts,
+by correspondence leg L (cache order) and by the model-free oracle leg Hs (call histories).
 -/
+import RegexVerif.Lemmas.LRU
+import RegexVerif.Lemmas.Pool
+import RegexVerif.Lemmas.RunnerReuse
+import RegexVerif.Generated.Fields
+
 namespace RegexVerif.Props.C12
+open RegexVerif
+
+/-! ## 1. the replacement cache -/
+section cache
+open RegexVerif.LRU RegexVerif.Lemmas.LRU
+open RegexVerif.LRU (get)
+variable {κ ν ε : Type} [DecidableEq κ]
+
+/-- cache invariant: no key occurs twice (so the Go map and the list agree) and, when a bound is
+    set, the list is no longer than `maxSize` -/
+def CacheInv (c : Cache κ ν) : Prop :=
+  (keys c.entries).Nodup ∧ (c.maxSize > 0 → c.entries.length ≤ c.maxSize)
+
+/-- **The LRU refines a finite map.**  Read the cache as the partial map `k ↦ lookup k entries`.  Then,
+    for every cache state satisfying the invariant:
+    (1) `get k` returns exactly the map's value at `k` and leaves the map unchanged (a hit only
+        reorders: the key moves to the front);
+    (2) after `add k v` the map sends `k` to `v`, loses at most the single key `evicted c k` -- which
+        is the *last* (least recently used) key and only when the cache was full and `k` new -- and is
+        unchanged everywhere else; in particular it never acquires a value nobody added;
+    (3) both operations preserve the invariant (no duplicate keys, size ≤ max).
+    For the Go code: `replacerDataCache.get/add` behave like a map with LRU eviction; a hit can only
+    return what was stored for that very key. -/
+theorem lru_refines_map (c : Cache κ ν) (h : CacheInv c) (k : κ) :
+    ((get c k).1 = lookup k c.entries ∧
+     (∀ k', lookup k' (get c k).2.entries = lookup k' c.entries) ∧
+     (∀ v, (get c k).1 = some v → (get c k).2.entries.head? = some (k, v)) ∧
+     CacheInv (get c k).2) ∧
+    ∀ v : ν,
+    (lookup k (add c k v).entries = some v ∧
+     (∀ k', k' ≠ k → lookup k' (add c k v).entries =
+        if evicted c k = some k' then none else lookup k' c.entries) ∧
+     (∀ k', evicted c k = some k' → (k :: keys c.entries).getLast? = some k' ∧ lookup k c.entries = none ∧
+        c.entries.length = c.maxSize) ∧
+     CacheInv (add c k v)) := by
+  obtain ⟨hnd, hsz⟩ := h
+  refine ⟨?_, ?_⟩
+  · -- get
+    cases hl : lookup k c.entries with
+    | none =>
+      rw [get_miss hl]
+      exact ⟨rfl, fun _ => rfl, (by intro v h; cases h), hnd, hsz⟩
+    | some w =>
+      rw [get_hit hl]
+      refine ⟨rfl, ?_, ?_, ?_, ?_⟩
+      · intro k'
+        by_cases hk : k' = k
+        · subst hk; simp [lookup, hl]
+        · have : ¬ k = k' := fun h' => hk h'.symm
+          simp only [lookup, this, if_false]
+          exact lookup_removeKey_ne hk _
+      · intro v hv; simp only [Option.some.injEq] at hv; subst hv; rfl
+      · simp only [keys, List.map_cons, List.nodup_cons]
+        exact ⟨not_mem_removeKey k _ hnd, nodup_removeKey k _ hnd⟩
+      · intro hm
+        have := length_removeKey hl
+        have := hsz hm
+        simp only [List.length_cons]; omega
+  · -- add
+    intro v
+    cases hl : lookup k c.entries with
+    | some w =>
+      rw [add_existing v hl, evicted_existing hl]
+      refine ⟨by simp [lookup], ?_, (by intro k' h; cases h), ?_, ?_⟩
+      · intro k' hk
+        have : ¬ k = k' := fun h' => hk h'.symm
+        simp only [lookup, this, if_false]
+        rw [lookup_removeKey_ne hk]; simp
+      · simp only [keys, List.map_cons, List.nodup_cons]
+        exact ⟨not_mem_removeKey k _ hnd, nodup_removeKey k _ hnd⟩
+      · intro hm
+        have := length_removeKey hl
+        have := hsz hm
+        simp only [List.length_cons]; omega
+    | none =>
+      have hnk : k ∉ keys c.entries := (lookup_none_iff k _).mp hl
+      have hnd' : (keys ((k, v) :: c.entries)).Nodup := by
+        simp only [keys, List.map_cons, List.nodup_cons]; exact ⟨hnk, hnd⟩
+      by_cases hfull : c.maxSize > 0 ∧ c.entries.length + 1 > c.maxSize
+      · rw [add_new_full v hl hfull, evicted_new_full hl hfull]
+        have hlen : c.entries.length = c.maxSize := by have := hsz hfull.1; omega
+        have hne : c.entries ≠ [] := by intro h; rw [h] at hlen; simp at hlen; omega
+        refine ⟨?_, ?_, ?_, ?_, ?_⟩
+        · -- k itself survives: it is the head and the list has at least two elements
+          rw [lookup_dropLast k _ hnd']
+          have : ¬ (keys ((k, v) :: c.entries)).getLast? = some k := by
+            intro hlast
+            obtain ⟨e, es, he⟩ := List.exists_cons_of_ne_nil hne
+            rw [he] at hlast hnk
+            simp only [keys, List.map_cons, List.getLast?_cons_cons] at hlast
+            have hm : k ∈ e.1 :: List.map (fun x => x.1) es := List.mem_of_getLast? hlast
+            simp only [keys, List.map_cons] at hnk
+            exact hnk hm
+          simp [this, lookup]
+        · intro k' hk
+          rw [lookup_dropLast k' _ hnd']
+          have : ¬ k = k' := fun h' => hk h'.symm
+          simp only [keys, List.map_cons, lookup, this, if_false]
+          by_cases he : (k :: List.map (fun x => x.fst) c.entries).getLast? = some k' <;> simp [he]
+        · intro k' hk'
+          exact ⟨hk', rfl, hlen⟩
+        · show (keys (((k, v) :: c.entries).dropLast)).Nodup
+          rw [keys_dropLast]; exact nodup_dropLast _ hnd'
+        · intro _; simp only [List.length_dropLast, List.length_cons]; omega
+      · rw [add_new_room v hl hfull, evicted_new_room hl hfull]
+        refine ⟨by simp [lookup], ?_, (by intro k' h; cases h), hnd', ?_⟩
+        · intro k' hk
+          have : ¬ k = k' := fun h' => hk h'.symm
+          simp [lookup, this]
+        · intro hm
+          have hm' : c.maxSize > 0 := hm
+          show c.entries.length + 1 ≤ c.maxSize
+          omega
+
+/-- every cached value is what parsing its key yields -/
+def Valid (parse : κ → Except ε ν) (c : Cache κ ν) : Prop :=
+  ∀ k v, lookup k c.entries = some v → parse k = .ok v
+
+/-- **The cache is transparent.**  Whatever the cache holds (any state satisfying the invariants, i.e.
+    any state reachable by earlier `Replace` calls), `getReplacerData` returns exactly what parsing the
+    replacement returns -- value or error -- and leaves a cache that again satisfies the invariants.
+    For the Go code: `Regexp.Replace` cannot be influenced by which replacements were used before. -/
+theorem cache_transparent (parse : κ → Except ε ν) (cacheable : κ → Bool) (cache : Option (Cache κ ν))
+    (hinv : ∀ c, cache = some c → CacheInv c ∧ Valid parse c) (k : κ) :
+    (getReplacerData parse cacheable cache k).1 = parse k ∧
+    (∀ c', (getReplacerData parse cacheable cache k).2 = some c' → CacheInv c' ∧ Valid parse c') := by
+  unfold getReplacerData
+  cases cache with
+  | none => exact ⟨rfl, by intro c' h; cases h⟩
+  | some c =>
+    obtain ⟨hci, hv⟩ := hinv c rfl
+    by_cases hc : cacheable k = true
+    · simp only [hc, if_true]
+      obtain ⟨⟨hg1, hg2, _, hg4⟩, hadd⟩ := lru_refines_map c hci k
+      cases hl : lookup k c.entries with
+      | some v =>
+        -- hit: the stored value is the parse of the key
+        have hget := get_hit hl
+        rw [hget] at hg2 hg4
+        simp only [hget]
+        refine ⟨(hv k v hl).symm, ?_⟩
+        intro c' hc'
+        simp only [Option.some.injEq] at hc'
+        subst hc'
+        exact ⟨hg4, fun k' v' h' => hv k' v' (by rw [← hg2 k']; exact h')⟩
+      | none =>
+        have hget := get_miss hl
+        simp only [hget]
+        cases hp : parse k with
+        | error e => exact ⟨rfl, by intro c' h'; simp at h'; subst h'; exact ⟨hci, hv⟩⟩
+        | ok v =>
+          refine ⟨rfl, ?_⟩
+          intro c' hc'
+          simp only [Option.some.injEq] at hc'
+          subst hc'
+          obtain ⟨ha1, ha2, _, ha4⟩ := hadd v
+          refine ⟨ha4, ?_⟩
+          intro k' v' h'
+          by_cases hk : k' = k
+          · subst hk; rw [ha1] at h'; simp only [Option.some.injEq] at h'; subst h'; exact hp
+          · rw [ha2 k' hk] at h'
+            by_cases he : evicted c k = some k'
+            · simp [he] at h'
+            · simp only [he, if_false] at h'; exact hv k' v' h'
+    · simp only [hc]
+      exact ⟨rfl, by intro c' h; simp at h; subst h; exact ⟨hci, hv⟩⟩
+
+/-- non-vacuity: a cache of size 2 over numeric keys with `parse k = k + 100`; after three distinct
+    replacements the first one has been evicted, looking it up again re-parses, and every result equals
+    the parse. -/
+def exParse : Nat → Except Unit Nat := fun k => .ok (k + 100)
+def exStep (st : Option (Cache Nat Nat)) (k : Nat) := getReplacerData exParse (fun _ => true) st k
+def exRun : List Nat → Option (Cache Nat Nat) → List (Except Unit Nat) × Option (Cache Nat Nat)
+  | [], st => ([], st)
+  | k :: ks, st => let r := exStep st k; let rest := exRun ks r.2; (r.1 :: rest.1, rest.2)
+
+example : (exRun [1, 2, 1, 3, 2] (some (empty 2))).1.map (·.toOption) = [some 101, some 102, some 101, some 103, some 102] := by decide
+example : (exRun [1, 2, 1, 3] (some (empty 2))).2.map (fun c => keys c.entries) = some [3, 1] := by decide
+example : (exRun [1, 2, 1, 3, 2] (some (empty 2))).2.map (fun c => keys c.entries) = some [2, 3] := by decide
+
+example : CacheInv (empty 2 : Cache Nat Nat) ∧ Valid (fun k => (.ok (k + 100) : Except Unit Nat)) (empty 2) :=
+  ⟨⟨by simp [empty, keys], by intro _; simp [empty]⟩, by intro k v h; simp [empty, lookup] at h⟩
+
+end cache
+
+/-! ## 2. the buffer pools -/
+section pool
+open RegexVerif.Pool RegexVerif.Lemmas.Pool
+open RegexVerif.Pool (get)
+
+/-- **What `get` hands out.**  Whatever the pools hold and whichever buffer `sync.Pool` picks (or none),
+    the slice returned has exactly the requested length and its backing array is at least that long
+    (so `(*bufp)[:neededSize]` cannot panic); a pooled result (`*[]T` non-nil) has the capacity of its
+    size class once the pool invariant holds. -/
+theorem pool_get_len (p : Pools) (needed : Nat) (max : Int) (pick : Option Nat) :
+    (get p needed max pick).buf.len = needed ∧ needed ≤ (get p needed max pick).buf.cap ∧
+    (get p needed max pick).buf.visible.length = needed := by
+  have key : (get p needed max pick).buf.len = needed ∧ needed ≤ (get p needed max pick).buf.cap := by
+    unfold Pool.get
+    cases hi : poolIndex p.sizes needed max with
+    | none => simp [Buf.make, Buf.cap]
+    | some idx =>
+      have hfit := (poolIndex_spec hi).2.2.1
+      simp only [List.getD_eq_getElem?_getD] at hfit
+      cases pick with
+      | none => simp [Buf.make, Buf.cap, hfit]
+      | some j =>
+        simp only
+        cases hb : (p.held.getD idx [])[j]? with
+        | none => simp [Buf.make, Buf.cap, hfit]
+        | some b =>
+          simp only
+          by_cases hc : b.cap ≥ needed
+          · rw [if_pos hc]; exact ⟨rfl, hc⟩
+          · rw [if_neg hc]; simp [Buf.make, Buf.cap, hfit]
+  refine ⟨key.1, key.2, ?_⟩
+  unfold Buf.visible
+  rw [List.length_take, key.1]
+  have := key.2
+  unfold Buf.cap at this
+  omega
+
+/-- **Decoding overwrites.**  After the decode loop has written the `n` runes of the input into a slice
+    of length ≥ `n`, the slice handed on (`buf[:n]`) holds exactly those runes -- whatever the backing
+    array held before -- and two buffers of any stale contents give the same result. -/
+theorem decode_overwrites (b : Buf) (runes : List Int) (hlen : runes.length ≤ b.len) (hcap : b.len ≤ b.cap) :
+    (∃ b', decode b runes = some b' ∧ b'.visible = runes ∧ b'.cap = b.cap) ∧
+    ∀ b2 : Buf, runes.length ≤ b2.len → (decode b runes).map Buf.visible = (decode b2 runes).map Buf.visible := by
+  have vis : ∀ c : Buf, runes.length ≤ c.len → (decode c runes).map Buf.visible = some runes := by
+    intro c hc
+    simp [decode, hc, Buf.visible]
+  refine ⟨⟨{ data := runes ++ b.data.drop runes.length, len := runes.length }, by simp [decode, hlen], ?_, ?_⟩, ?_⟩
+  · simp [Buf.visible]
+  · unfold Buf.cap at *; simp; omega
+  · intro b2 h2; rw [vis b hlen, vis b2 h2]
+
+/-- **Pooled decode is history independent.**  `decodeString`: get a buffer for `len(s)` bytes from the
+    pools in *any* state with *any* pick, decode the `n ≤ len(s)` runes of `s` into it: the slice the
+    matcher sees is exactly the runes of `s`. -/
+theorem pool_decode_history_independent (p : Pools) (needed : Nat) (max : Int) (pick : Option Nat)
+    (runes : List Int) (hn : runes.length ≤ needed) :
+    (decode (get p needed max pick).buf runes).map Buf.visible = some runes := by
+  obtain ⟨h1, _, _⟩ := pool_get_len p needed max pick
+  simp [decode, h1, hn, Buf.visible]
+
+/-- **Class discipline.**  With strictly ascending class sizes (see `pool_sizes_ascending`): the
+    invariant "every buffer held for class `i` has capacity exactly `sizes[i]`" holds for new pools and
+    is preserved by `get` (any pick) and by `put` of any buffer whatsoever; `put` files a buffer of
+    capacity `sizes[i]` under class `i` and drops a buffer whose capacity is no class size; a pooled
+    `get` result has the capacity of the class `poolIndex` chose. -/
+theorem poolIndex_put_get_consistent (p : Pools) (hs : p.sizes.Pairwise (· < ·)) (h : Inv p) :
+    (∀ needed max pick, Inv (get p needed max pick).pools) ∧
+    (∀ b, Inv (put p b)) ∧
+    (∀ b i, i < p.sizes.length → b.cap = p.sizes.getD i 0 →
+        (put p b).held.getD i [] = { b with len := 0 } :: p.held.getD i []) ∧
+    (∀ b, (∀ i, i < p.sizes.length → b.cap ≠ p.sizes.getD i 0) → put p b = p) ∧
+    (∀ needed max pick idx, poolIndex p.sizes needed max = some idx →
+        (get p needed max pick).pooled = true ∧ (get p needed max pick).buf.cap = p.sizes.getD idx 0) := by
+  refine ⟨?_, ?_, ?_, ?_, ?_⟩
+  · intro needed max pick
+    unfold Pool.get
+    cases hi : poolIndex p.sizes needed max with
+    | none => exact h
+    | some idx =>
+      cases pick with
+      | none => exact h
+      | some j =>
+        simp only
+        cases hb : (p.held.getD idx [])[j]? with
+        | none => exact h
+        | some b =>
+          have hidx : idx < p.held.length := by rw [h.1]; exact (poolIndex_spec hi).2.1
+          have hrem : Inv { p with held := p.held.set idx (removeAt (p.held.getD idx []) j) } :=
+            inv_set h idx _ (fun x hx => h.2 idx hidx x (mem_removeAt _ _ _ hx))
+          simp only
+          by_cases hc : b.cap ≥ needed
+          · rw [if_pos hc]; exact hrem
+          · rw [if_neg hc]; exact hrem
+  · intro b
+    unfold put
+    cases hi : poolIndex p.sizes b.cap (-1) with
+    | none => exact h
+    | some idx =>
+      simp only
+      by_cases hne : b.cap ≠ p.sizes.getD idx 0
+      · rw [if_pos hne]; exact h
+      · rw [if_neg hne]
+        have hidx : idx < p.held.length := by rw [h.1]; exact (poolIndex_spec hi).2.1
+        apply inv_set h
+        intro x hx
+        simp only [List.mem_cons] at hx
+        cases hx with
+        | inl hx => subst hx; simp only [Buf.cap] at hne ⊢; omega
+        | inr hx => exact h.2 idx hidx x hx
+  · intro b i hi hcap
+    unfold put
+    rw [hcap, poolIndex_self hs hi]
+    have hidx : i < p.held.length := by rw [h.1]; exact hi
+    simp [List.getD, hidx]
+  · intro b hno
+    unfold put
+    cases hi : poolIndex p.sizes b.cap (-1) with
+    | none => rfl
+    | some idx =>
+      have := hno idx (poolIndex_spec hi).2.1
+      simp only []
+      rw [if_pos this]
+  · intro needed max pick idx hi
+    unfold Pool.get
+    rw [hi]
+    cases pick with
+    | none => simp [Buf.make, Buf.cap]
+    | some j =>
+      simp only
+      cases hb : (p.held.getD idx [])[j]? with
+      | none => simp [Buf.make, Buf.cap]
+      | some b =>
+        have hidx : idx < p.held.length := by rw [h.1]; exact (poolIndex_spec hi).2.1
+        have hbcap := h.2 idx hidx b (List.mem_of_getElem? hb)
+        simp only
+        by_cases hc : b.cap ≥ needed
+        · rw [if_pos hc]; exact ⟨rfl, hbcap⟩
+        · rw [if_neg hc]; simp [Buf.make, Buf.cap]
+
+/-- **`poolIndex` picks the smallest class that fits** and respects a positive `max`; `max = 0`
+    switches pooling off. -/
+theorem poolIndex_smallest_fit (sizes : List Nat) (needed : Nat) (max : Int) (i : Nat)
+    (h : poolIndex sizes needed max = some i) :
+    max ≠ 0 ∧ i < sizes.length ∧ needed ≤ sizes.getD i 0 ∧ (max > 0 → (sizes.getD i 0 : Int) ≤ max) ∧
+    ∀ j, j < i → sizes.getD j 0 < needed :=
+  poolIndex_spec h
+
+/-- the size classes of both global pools, as read from bufferpool.go, are strictly ascending -/
+theorem pool_sizes_ascending :
+    Generated.runePoolSizes.Pairwise (· < ·) ∧ Generated.bytePoolSizes.Pairwise (· < ·) := by decide
+
+/-- non-vacuity (small classes 4 and 16 for the evaluation): a class-4 buffer full of stale 7s, put back
+    and handed out again for a 3-byte input that decodes to 2 runes: the matcher sees exactly the 2
+    runes.  With the real classes: a 2000-rune request is served from the 4K class, with `max = 1024`
+    it is not pooled, and 300000 fits no class. -/
+example :
+    let p1 := put (Pools.new [4, 16]) { data := [7, 7, 7, 7], len := 4 }
+    let g := get p1 3 (-1) (some 0)
+    (g.pooled, g.buf.len, g.buf.cap, g.buf.visible, (decode g.buf [233, 26085]).map Buf.visible) =
+      (true, 3, 4, [7, 7, 7], some [233, 26085]) := by
+  decide
+
+example :
+    poolIndex Generated.runePoolSizes 2000 (-1) = some 1 ∧ poolIndex Generated.runePoolSizes 2000 1024 = none ∧
+    poolIndex Generated.runePoolSizes 300000 (-1) = none ∧ poolIndex Generated.runePoolSizes 5 0 = none := by
+  decide
+
+example : Inv (Pools.new [4, 16]) ∧ ([4, 16] : List Nat).Pairwise (· < ·) := ⟨inv_new _, by decide⟩
+
+end pool
 end RegexVerif.Props.C12
